@@ -41,6 +41,24 @@ type c10Case struct {
 	Clock   []int64 `json:"clock"`
 	Ops     []c10Op `json:"ops"`
 	Wall    int     `json:"wall,omitempty"` // >0: wall-clock sanity case (real clock, not sent to the model)
+	// Every > 0 (long histories): on a test scope, whose Snapshot() grows with the
+	// history, only every Every-th call's snapshot is written down for the model;
+	// the direct predicate still looks at the snapshot after every call.
+	Every int `json:"every,omitempty"`
+	// Threads non-empty: a concurrent case (c10conc.go). Ops is the sequential
+	// prelude (sub / tag only); each thread then runs its own list of timer
+	// (H = scope handle) and rec (H = index among the thread's own timers) calls;
+	// Sched is the order in which the schedule controller resumes the threads.
+	Threads [][]c10Op `json:"threads,omitempty"`
+	Sched   []int     `json:"sched,omitempty"`
+}
+
+// brief renders a value list for messages: all of a short one, both ends of a long one.
+func brief(v []int64) string {
+	if len(v) <= 8 {
+		return fmt.Sprint(v)
+	}
+	return fmt.Sprintf("[%d %d %d ... %d %d] (%d values)", v[0], v[1], v[2], v[len(v)-2], v[len(v)-1], len(v))
 }
 
 var c10Names = []string{"a", "b", "c", "x_y", "", "é", "\xff", "lat", "latency", "a.b", "rpc-0123456789"}
@@ -553,15 +571,15 @@ func c10Run(c *c10Case) (in []Ev, obs []Ev, fail string) {
 				if expT != nil && k == strings.Join(expT.strs, "\x00") {
 					grow = 1
 				}
-				if len(nv) != len(old)+grow || !sameI64(nv[:len(old)], old) || (grow == 1 && nv[len(old)] != expD) {
-					failf(j, "timer %q values went from %v to %v (expected %d new value(s), %d)", k, old, nv, grow, expD)
+				if len(nv) != len(old)+grow || !sameI64(nv[:len(old)], old) || (grow == 1 && nv[len(old)] != expD) { // (&& / || short-circuit: lengths first)
+					failf(j, "timer %q: Snapshot() values went from %s to %s (expected the old values and %d new value(s), %d)", k, brief(old), brief(nv), grow, expD)
 				}
 			}
 			if expT != nil {
 				k := strings.Join(expT.strs, "\x00")
 				if _, known := tvals[k]; !known {
 					if nv := now[k]; len(nv) != 1 || nv[0] != expD {
-						failf(j, "timer %q values %v, expected [%d]", k, nv, expD)
+						failf(j, "timer %q values %s, expected [%d]", k, brief(nv), expD)
 					}
 				}
 			}
@@ -589,11 +607,15 @@ func c10Run(c *c10Case) (in []Ev, obs []Ev, fail string) {
 				}
 			}
 		}
-		obs = append(obs, delta...)
-		if execEv != nil {
-			obs = append(obs, *execEv)
+		if ts == nil || c.Every <= 0 || j%c.Every == c.Every-1 || j < 2 || j == len(c.Ops)-1 {
+			obs = append(obs, delta...)
+			if execEv != nil {
+				obs = append(obs, *execEv)
+			}
+			obs = append(obs, Ev{K: 90, I: []int64{int64(reads)}})
+		} else {
+			obs = append(obs, Ev{K: 91}) // looked at by the direct predicate only
 		}
-		obs = append(obs, Ev{K: 90, I: []int64{int64(reads)}})
 	}
 	// every history ends with a report pass: nothing stopped into a histogram is left undelivered
 	if ts == nil {
@@ -696,7 +718,7 @@ func c10Term(idx int, c *c10Case, in, obs []Ev) string {
 func init() {
 	props["C10"] = func(ctx *Ctx) {
 		ctx.Header("TimerCorr")
-		ctx.Res.Rule = "case = (flavour of root scope, root prefix/tags, clock script, history of SubScope/Tagged/Timer/Record/report pass/Start/Stop/Histogram/NewCall/Exec calls); generated from the seed; non-trivial = at least one value reaches a timer (Record, Stop or Exec); distinct by hash of the case"
+		ctx.Res.Rule = "case = (flavour of root scope, root prefix/tags, clock script, history of SubScope/Tagged/Timer/Record/report pass/Start/Stop/Histogram/NewCall/Exec calls); generated from the seed; plus long histories (hundreds of Records on one or two timers) and concurrent cases (threads obtaining the same new timer and recording on their handles, with the schedule); non-trivial = at least one value reaches a timer (Record, Stop or Exec); distinct by hash of the case"
 		fl := []string{"plain", "cached", "test", "both"}
 		one := func(c *c10Case) {
 			if c.Wall > 0 {
@@ -710,6 +732,15 @@ func init() {
 			if c.Flavour < 0 || c.Flavour > 3 {
 				return
 			}
+			if len(c.Threads) > 0 {
+				lin, in, obs, fail := c10Conc(c)
+				idx := ctx.Res.Evaluations
+				ctx.Case(c, c10Term(idx, c, in, obs), fmt.Sprintf("%s/concurrent/threads=%d", fl[c.Flavour], len(c.Threads)), hashOf(c))
+				if fail != "" {
+					ctx.Fail("every_record_on_every_handle_delivered_once_before_it_returns", fail, c, map[string]interface{}{"calls_in_completion_order": lin, "observed": tailEv(obs, 40)})
+				}
+				return
+			}
 			in, obs, fail := c10Run(c)
 			nrec, npass := 0, 0
 			for _, o := range c.Ops {
@@ -721,6 +752,9 @@ func init() {
 				}
 			}
 			cls := fmt.Sprintf("%s/values=%s/passes=%s", fl[c.Flavour], bucket3(nrec), bucket3(npass))
+			if nrec > 100 {
+				cls = fmt.Sprintf("%s/long/values=100+", fl[c.Flavour])
+			}
 			key := ""
 			if nrec > 0 {
 				key = hashOf(c)
@@ -728,7 +762,7 @@ func init() {
 			idx := ctx.Res.Evaluations
 			ctx.Case(c, c10Term(idx, c, in, obs), cls, key)
 			if fail != "" {
-				ctx.Fail("each_record_delivered_once_synchronously_stopwatch_elapsed_exec_once", fail, c, obs)
+				ctx.Fail("each_record_delivered_once_synchronously_stopwatch_elapsed_exec_once", fail, c, tailEv(obs, 60))
 			}
 		}
 		if ctx.Replay != nil {
@@ -741,11 +775,19 @@ func init() {
 		}
 		for _, raw := range ctx.CorpusCases() {
 			var c c10Case
-			if json.Unmarshal(raw, &c) == nil && len(c.Ops) > 0 {
+			if json.Unmarshal(raw, &c) == nil && (len(c.Ops) > 0 || len(c.Threads) > 0) {
 				one(&c)
 			}
 		}
 		for _, c := range c10Fixed() {
+			c := c
+			one(&c)
+		}
+		for _, c := range c10FixedLong() {
+			c := c
+			one(&c)
+		}
+		for _, c := range c10FixedConc() {
 			c := c
 			one(&c)
 		}
@@ -754,10 +796,86 @@ func init() {
 			c := c10Gen(ctx.R, i)
 			one(&c)
 		}
+		// long histories: "all record histories ... interleaved with any number of report passes"
+		for i := 0; i < ctx.N(8, 60); i++ {
+			c := c10GenLong(ctx.R, i)
+			one(&c)
+		}
+		// handles obtained concurrently: every Record on every handle a scope hands out is delivered
+		for i := 0; i < ctx.N(80, 1200); i++ {
+			c := c10GenConc(ctx.R, i)
+			one(&c)
+		}
 		for i := 0; i < ctx.N(6, 40); i++ {
 			one(&c10Case{Wall: 1 + ctx.R.Intn(200), Ops: []c10Op{{Op: "start"}}})
 		}
 	}
+}
+
+// tailEv: the last n events (failure records of long histories stay readable).
+func tailEv(es []Ev, n int) []Ev {
+	if len(es) <= n {
+		return es
+	}
+	return es[len(es)-n:]
+}
+
+// c10GenLong: a long history on one or two timers (hundreds of Records with a
+// few report passes and stopwatches in between).
+func c10GenLong(r *Rng, i int) c10Case {
+	c := c10Case{Flavour: []int{2, 0, 1, 2, 3, 2}[i%6]}
+	c.Prefix = B(r.Pick([]string{"", "p"}))
+	c.Tags = c10Tags(r, 1)
+	for j, t := 0, int64(r.Intn(1000)); j < 24; j++ {
+		c.Clock = append(c.Clock, t)
+		t += int64(r.Intn(1000000))
+	}
+	c.Ops = []c10Op{{Op: "timer", H: 0, Name: "t"}}
+	nt := 1
+	if r.Chance(35) {
+		c.Ops = append(c.Ops, c10Op{Op: "sub", H: 0, Name: "s"}, c10Op{Op: "timer", H: 1, Name: "u"})
+		nt = 2
+	}
+	n := 160 + r.Intn(340)
+	nsw := 0
+	for j := 0; j < n; j++ {
+		switch x := r.Intn(100); {
+		case x < 90:
+			d := int64(j)
+			if r.Chance(30) {
+				d = r.I64()
+			}
+			c.Ops = append(c.Ops, c10Op{Op: "rec", H: r.Intn(nt), D: d})
+		case x < 94:
+			c.Ops = append(c.Ops, c10Op{Op: "pass"})
+		case x < 97 || nsw == 0:
+			c.Ops = append(c.Ops, c10Op{Op: "start", H: r.Intn(nt)})
+			nsw++
+		default:
+			c.Ops = append(c.Ops, c10Op{Op: "stop", H: r.Intn(nsw)})
+		}
+	}
+	c.Ops = append(c.Ops, c10Op{Op: "pass"})
+	c.Every = len(c.Ops)/5 + 1
+	return c
+}
+
+// c10FixedLong: 300 Records on one timer with a report pass every 64 calls, per flavour.
+func c10FixedLong() []c10Case {
+	var out []c10Case
+	for f := 0; f < 4; f++ {
+		c := c10Case{Flavour: f, Prefix: "p", Ops: []c10Op{{Op: "timer", H: 0, Name: "t"}}}
+		for j := 0; j < 300; j++ {
+			c.Ops = append(c.Ops, c10Op{Op: "rec", H: 0, D: int64(1000 + j)})
+			if j%64 == 63 {
+				c.Ops = append(c.Ops, c10Op{Op: "pass"})
+			}
+		}
+		c.Ops = append(c.Ops, c10Op{Op: "pass"})
+		c.Every = 61
+		out = append(out, c)
+	}
+	return out
 }
 
 func bucket3(n int) string {
